@@ -61,6 +61,7 @@ func (c05) Thresholds(tier string) map[string]int64 {
 		"empty-input":                     100,
 		"mutation-still-valid":            1000,
 		"label-checks":                    3500,
+		"by-construction:mixed-indentation-not-deeper": 30,
 	}
 	for _, cl := range c05Classes {
 		th["class:"+cl] = 1000
@@ -70,7 +71,7 @@ func (c05) Thresholds(tier string) map[string]int64 {
 }
 
 func (c05) Rule() string {
-	return "case = 50 inputs derived from one generated valid program rendered in a PRNG layout: the program itself (must load); token-level mutations (delete / duplicate / swap / insert / replace from a dictionary of << >> { } === --- -> <<if <<endif>> <<else>> # \\\\ \" ( , [ space/tab, stray > ...); line deletions; truncations at PRNG byte offsets; mutations that are invalid by construction (unbalanced <<endif>>, {1 +}, missing ===, tab+space indentation of a statement); raw byte strings with invalid UTF-8, NUL and lone CR; empty and white-space-only inputs; each input also cut at PRNG byte offsets into 2-4 readers. Validity oracle: an independent parse in the harness with the grammar's lexer and parser and the harness's own counting error listeners - valid iff no lexer error (which includes tab/space-mixed indentation), no parser error and the parser stopped at end of input; a multi-reader input is valid iff every reader is. The oracle is cross-checked by two labels (generated programs are valid, the by-construction mutations are invalid); a disagreement there is a harness error (inconclusive). Verdict: NewDialogueRunner returns (panics are caught; a call that does not return is caught by the child watchdog and confirmed alone) and err == nil iff the input is valid. Seeds: 20 strings per case over arbitrary bytes, length 0-40: an error iff a character outside [0-9a-z] occurs, never a panic. Non-trivial: a mutation the oracle rejects, a valid program in a non-canonical layout, or a multi-reader split. Distinct by hash of the readers."
+	return "case = 50 inputs derived from one generated valid program rendered in a PRNG layout: the program itself (must load); token-level mutations (delete / duplicate / swap / insert / replace from a dictionary of << >> { } === --- -> <<if <<endif>> <<else>> # \\\\ \" ( , [ space/tab, stray > ...); line deletions; truncations at PRNG byte offsets; mutations that are invalid by construction (unbalanced <<endif>>, {1 +}, missing ===, tab+space indentation of a statement); raw byte strings with invalid UTF-8, NUL and lone CR; empty and white-space-only inputs; each input also cut at PRNG byte offsets into 2-4 readers. Validity oracle: an independent parse in the harness with the grammar's lexer and parser and the harness's own counting error listeners - valid iff no lexer error, no parser error, the parser stopped at end of input, and - judged by the harness itself, not by the lexer - no line that carries a statement is indented with both tabs and blanks; a multi-reader input is valid iff every reader is. The oracle is cross-checked by two labels (generated programs are valid, the by-construction mutations are invalid); a disagreement there is a harness error (inconclusive). Verdict: NewDialogueRunner returns (panics are caught; a call that does not return is caught by the child watchdog and confirmed alone) and err == nil iff the input is valid. Seeds: 20 strings per case over arbitrary bytes, length 0-40: an error iff a character outside [0-9a-z] occurs, never a panic. Non-trivial: a mutation the oracle rejects, a valid program in a non-canonical layout, or a multi-reader split. Distinct by hash of the readers."
 }
 
 func (c05) Assumptions() []string {
@@ -106,7 +107,9 @@ func oracleValid(s string) (valid bool, kind string, pan string) {
 	ps.AddErrorListener(parL)
 	ps.Dialogue()
 	switch {
-	case lexL.n > 0 && mixedIndent.MatchString(s) && parL.n == 0:
+	case mixedStatementIndent(s):
+		// judged independently of the lexer: a line that carries a statement and whose indentation
+		// mixes tabs and blanks makes the script invalid
 		return false, "mixed-indentation", ""
 	case lexL.n > 0:
 		return false, "lexer-error", ""
@@ -120,7 +123,25 @@ func oracleValid(s string) (valid bool, kind string, pan string) {
 
 var nodeEndRe = regexp.MustCompile(`(^|[\r\n])===`)
 
-var mixedIndent = regexp.MustCompile(`(?m)^( +\t|\t+ )`)
+var eolRe = regexp.MustCompile(`\r\n|\n|\r`)
+
+// mixedStatementIndent reports whether some line after the first one carries something else than a
+// comment and is indented with both tabs and blanks. (The first line of an input has no line break
+// before it; nothing is said about its leading white space, and generators never mix it.)
+func mixedStatementIndent(s string) bool {
+	lines := eolRe.Split(s, -1)
+	for _, l := range lines[1:] {
+		rest := strings.TrimLeft(l, " \t")
+		if rest == "" || strings.HasPrefix(rest, "//") {
+			continue
+		}
+		ws := l[:len(l)-len(rest)]
+		if strings.Contains(ws, " ") && strings.Contains(ws, "\t") {
+			return true
+		}
+	}
+	return false
+}
 
 var c05Dict = []string{"<<", ">>", "{", "}", "===", "---", "->", "<<if ", "<<endif>>", "<<else>>", "<<elseif ", "#", "\\", "\"", "(", ")", ",", "[", "]", " ", "\t", ">", "<", "$", "$x", "title:", ":", "\n", "\r", "    ", "//", "set ", "to", "=", "+", "true", "null", "1", "<<jump ", "<<stop>>", "<<declare ", "as", "x"}
 
@@ -182,6 +203,24 @@ func invalidByConstruction(r *core.Rand, s string) (string, string) {
 			return strings.Join(lines, ""), "dangling-operator"
 		}
 	case 2:
+		// a statement line indented with tab+blank: either a new line right after ---, or an existing
+		// line that is indented at least 9 columns deep, re-indented with a mixture that is NOT deeper
+		// than before (so that no new block opens)
+		var deep []int
+		for i, l := range lines {
+			rest := strings.TrimLeft(l, " \t")
+			ws := l[:len(l)-len(rest)]
+			if i > bodyStart && bodyStart >= 0 && rest != "" && !strings.HasPrefix(rest, "//") && !strings.HasPrefix(rest, "\n") && !strings.HasPrefix(rest, "\r") &&
+				len(ws)+7*strings.Count(ws, "\t") >= 9 {
+				deep = append(deep, i)
+			}
+		}
+		if len(deep) > 0 && r.Bool() {
+			i := deep[r.Intn(len(deep))]
+			rest := strings.TrimLeft(lines[i], " \t")
+			lines[i] = r.Pick(" \t", "\t ") + rest
+			return strings.Join(lines, ""), "mixed-indentation-not-deeper"
+		}
 		if bodyStart >= 0 {
 			lines = append(lines[:bodyStart+1], append([]string{" \tmixed indentation\n"}, lines[bodyStart+1:]...)...)
 			return strings.Join(lines, ""), "mixed-indentation"
@@ -324,8 +363,10 @@ func (p c05) Run(c *core.Ctx) {
 		case 2:
 			in, class = base[:r.Intn(len(base)+1)], "truncation"
 		case 3:
-			in, _ = invalidByConstruction(r, base)
+			var how string
+			in, how = invalidByConstruction(r, base)
 			class, label = "invalid-by-construction", "invalid"
+			c.Feature("by-construction:" + how)
 		case 4:
 			in, class = rawBytes(r), "raw-bytes"
 		case 5:
